@@ -161,10 +161,13 @@ def run_scenario(evs, loopback=True):
                 await sim.sleep_until(t0 + dt)
                 sim.randoms['mcast_delay'] = [r]
                 sim.randoms['tc_delay'] = [tcd]
-                if kind in ('ptr', 'ptr-known', 'tc', 'tc-known-y'):
+                if kind in ('ptr', 'ptr-known', 'tc', 'tc-known-y', 'tc-known-x', 'tc-known-xy'):
                     ptr_y = cachesim.rec('KPointer', T, 12, 1, alias=YN, ttl=4500)
-                    data = build_query([(T, 12, False)], known=[ptr_x] if kind == 'ptr-known' else ([ptr_y] if kind == 'tc-known-y' else []),
-                                       tc=kind.startswith('tc'), ident=ident)
+                    known = {'ptr-known': [ptr_x], 'tc-known-x': [ptr_x], 'tc-known-y': [ptr_y], 'tc-known-xy': [ptr_x, ptr_y]}.get(kind, [])
+                    if kind.startswith('tc') and ident >= 100:
+                        # packets of a generated train differ in content (a multicast query carries id 0, and an identical continuation is ignored)
+                        known = known + [cachesim.rec('KPointer', T, 12, 1, alias=f'filler{ident}.{T}', ttl=4500)]
+                    data = build_query([(T, 12, False)], known=known, tc=kind.startswith('tc'), ident=ident)
                 elif kind == 'srv':
                     data = build_query([(XN, 33, False)], ident=ident)
                 elif kind == 'a':
@@ -298,6 +301,52 @@ def oracle_scenario(log, esc):
     return None
 
 
+def gen_train(rng):
+    """one truncated packet train from one source and nothing else: 1-4 packets, every gap shorter than the shortest hold, distinct bytes
+    (ids), each listing none, one or both pointers as known answers"""
+    n = rng.choice([1, 2, 2, 3, 3, 3, 4, 4])
+    evs, t = [], 0
+    for k in range(n):
+        kind = rng.choice(['tc', 'tc', 'tc-known-x', 'tc-known-y', 'tc-known-xy'])
+        evs.append((t, kind, '10.0.0.7', rng.choice([20, 57, 120]), rng.choice([400, 431, 450, 500]), 100 + k))
+        t += rng.choice([1, 50, 150, 200, 250, 300, 350, 399])
+    return evs
+
+
+def oracle_train(evs, log, esc):
+    """the train is held until 400-500 ms (the draw of its LAST packet) after its last packet, then answered once - after the usual 20-120 ms -
+    with the union of the known answers of all its packets"""
+    if esc:
+        return f"exception in the event loop: {esc[0]}"
+    queries = [e for e in log if e[0] == 'query']
+    t_first, t_last, hold = queries[0][1], queries[-1][1], queries[-1][5]
+    known = set()
+    for q in queries:
+        known |= {'tc-known-x': {XN.lower()}, 'tc-known-y': {YN.lower()}, 'tc-known-xy': {XN.lower(), YN.lower()}}.get(q[2], set())
+    want = {XN.lower(), YN.lower()} - known
+    got = []
+    for (_, ts, dest, data) in [e for e in log if e[0] == 'send']:
+        if not (dest and dest[0] == '224.0.0.251') or ts < t_first:
+            continue
+        m, recs = records_in(data)
+        if m.is_query():
+            continue
+        for r in recs[:m.num_answers] if hasattr(m, 'num_answers') else recs:
+            if r[0] == 'DNSPointer' and r[1] == T.lower():
+                got.append((ts, r[3]))
+    lo, hi = t_last + hold + 20, t_last + hold + 120
+    for ts, alias in got:
+        if alias in known:
+            return f"train {[(q[1], q[2]) for q in queries]}: {alias} multicast at +{ts} although a packet of the train lists it as a known answer"
+        if not lo <= ts <= hi:
+            return (f"train {[(q[1], q[2]) for q in queries]}: {alias} multicast at +{ts}; the hold of the last packet (+{t_last}, {hold} ms) "
+                    f"plus 20-120 ms gives +{lo}..+{hi}")
+    for alias in want:
+        if sum(1 for ts, a in got if a == alias) != 1:
+            return f"train {[(q[1], q[2]) for q in queries]}: {alias} answered {sum(1 for ts, a in got if a == alias)} times (expected once, at +{lo}..+{hi})"
+    return None
+
+
 def jsonable(x):
     from props.c05 import jsonable as j
     return j(x)
@@ -348,14 +397,28 @@ def run(ctx):
         ctx.count(('s', repr(evs)), nontrivial=len(evs) > 1)
         for e in evs:
             ctx.hist('scenario-query:' + e[1])
+    # (3) truncated packet trains on their own
+    tfails = []
+    for k in range(120 if quick else 2000):
+        evs = gen_train(rng)
+        log, esc = run_scenario(evs)
+        why = oracle_train(evs, log, esc)
+        if why:
+            tfails.append((evs, why))
+        ctx.count(('t', repr(evs)), nontrivial=len(evs) > 1)
+        ctx.hist(f'train:packets={len(evs)}')
     ctx.sample({'queue_schedule': jsonable(sched[0])})
     ctx.sample({'node_scenario(dt, kind, src, mcast_delay, tc_delay, id)': jsonable(gen_scenario(rng))})
     ctx.cov['rule'] = ("(1) add schedules for both queues (0/500 and 1000/200): 1-6 adds with gaps on the grid 0..3000 ms, draws 20..120, TC-style stale arrival "
                        "times, tie-free; compared: time and content of every emitted batch. (2) full-stack scenarios: 1-5 QM queries (PTR, PTR with known answer, "
                        "SRV, A, two-question, TC) from two sources at grid gaps against a host with two services, loop-back on; oracle: windows 20..500 ms, "
-                       "immediate types, one-second protection (>= sighting + 1 s, <= query + 1.2 s), no duplicate in a batch, TC hold. distinct = distinct schedules")
+                       "immediate types, one-second protection (>= sighting + 1 s, <= query + 1.2 s), no duplicate in a batch, TC hold. (3) truncated trains of 1-4 packets from one "
+                       "source, gaps 1..399 ms, each packet listing none / one / both pointers as known: answered once, hold counted from the LAST packet, union of "
+                       "known answers. distinct = distinct schedules")
     for sc, why in qfails[:2]:
         ctx.violation({'kind': 'oracle', 'why': why, 'queue_schedule': jsonable(sc), 'broken': None if ok else ctx.build_msg})
+    for evs, why in tfails[:2]:
+        ctx.violation({'kind': 'oracle', 'why': why, 'scenario': jsonable(evs), 'broken': None if ok else ctx.build_msg}, tags=scenario_tags(evs, why))
     for evs, why in fails[:3]:
         ctx.violation({'kind': 'oracle', 'why': why, 'scenario': jsonable(evs), 'broken': None if ok else ctx.build_msg},
                       tags=scenario_tags(evs, why))
@@ -384,5 +447,7 @@ def replay(ctx, path):
     evs = [tuple(e) for e in r['scenario']]
     log, esc = run_scenario(evs)
     why = oracle_scenario(log, esc)
+    if not why and evs and all(e[1].startswith('tc') for e in evs) and len({e[2] for e in evs}) == 1:
+        why = oracle_train(evs, log, esc)
     print("replay:", f"still fails: {why}" if why else "passes")
     return 1 if why else 0
